@@ -306,6 +306,8 @@ func genMalformed(r *rand.Rand, tags map[string]bool) []hx.T {
 		return []hx.T{hx.C("OSetId", two32-2), hx.C("OPost", 0, "KOk"), hx.C("OConcN", 0, 2, 3), hx.C("OStep")}
 	case 8:
 		return []hx.T{hx.C("OList", 0, []any{behAlphabet(1)[0]}), hx.C("OShare", 0, 0, int64(4+r.Intn(2)))}
+	case 4:
+		return []hx.T{hx.C("OConcStop", int64(1+2*r.Intn(2)), 0, 3, 1)}
 	case 9: // a task of a concurrent shared block that never completes
 		return []hx.T{hx.C("OConcS", 0, 2, 2, []any{behAlphabet(1)[4]})}
 	case 0:
@@ -700,6 +702,16 @@ func Run(cfg *hx.Config) error {
 		tg := map[string]bool{"panic": true, "panic-value": true}
 		emit("task-panic-values", []hx.T{hx.C("OTaskPanics", v), hx.C("OConcW", int64(vi%2), []any{
 			[]any{okPan(1), okPan(2), behAlphabet(30)[2]}, []any{okPan(5), behAlphabet(40)[0], okPan(6)}})}, tg)
+	}
+	// ---- teardown: Stop with closures queued, by a foreign goroutine / by a closure of the consumer
+	for _, mode := range []int64{0, 2, 5} {
+		for who := int64(0); who < 2; who++ {
+			for _, n := range []int64{0, 1, 3, 40, 900} {
+				emit("stop-with-queued", []hx.T{hx.C("OConcStop", mode, who, n, n%3)}, nil)
+			}
+			emit("stop-with-queued", []hx.T{hx.C("OConcStop", mode, who, int64(2+r.Intn(200)), int64(r.Intn(5)))}, nil)
+			emit("stop-with-queued", withId(int64(2+who), []hx.T{hx.C("OConcStop", mode, who, 6, 2)}), map[string]bool{"id-tracked": true})
+		}
 	}
 	// ---- shared task lists
 	for L := 0; L <= cdepth; L++ {
